@@ -103,6 +103,22 @@ pub fn apply(base: &Base, ops: &[Value]) -> Vec<u8> {
                     lines[i].push(0xFF);
                 }
             }
+            "mbchar" => {
+                // a valid multi-byte UTF-8 character (U+FF11 FULLWIDTH DIGIT ONE, 3 bytes; U+00E9, 2 bytes) at a place
+                // where the header grammar expects an ASCII digit, boolean, colon or name
+                let i = idx("line");
+                if i < lines.len() {
+                    let (k, v) = split_kv(&lines[i]);
+                    let ch: &[u8] = if vu(&op["w"]) == 3 { "\u{ff11}".as_bytes() } else { "\u{e9}".as_bytes() };
+                    lines[i] = match vs(&op["at"]) {
+                        "first" => [k, vec![b':'], ch.to_vec(), v.get(1..).unwrap_or(&[]).to_vec()].concat(),
+                        "before" => [k, vec![b':'], ch.to_vec(), v].concat(),
+                        "last" => [k, vec![b':'], v, ch.to_vec()].concat(),
+                        "key" => [k, ch.to_vec(), vec![b':'], v].concat(),
+                        _ => [ch.to_vec(), k, vec![b':'], v].concat(),
+                    };
+                }
+            }
             "tokdel" => {
                 let i = idx("i");
                 if i < toks.len() {
